@@ -209,6 +209,23 @@ def check_frame_of_loop(ex, env, before, modified, node):
                         (node.lineno, key[1], key[0]))
 
 
+def check_no_frozen_alias(ex, env, node, head_names):
+  """At a back edge no variable that is live at the loop head may refer to an
+  object owned by a stored result (ownership argument of C04).  Names first
+  assigned inside the body are not defined at the head of the next iteration
+  in this encoding, so reading them before assignment is an engine error."""
+  ctx = ex.ctx
+  if not ctx.frozen:
+    return
+  for name, v in visible_vars(env).items():
+    if name not in head_names:
+      continue
+    if isinstance(v, VObj) and v.oid in ctx.frozen:
+      ctx.oblige(z3.BoolVal(False),
+                 'loop-carried variable %s does not alias an object owned by '
+                 'a stored result' % name, 'frame', ('C04',))
+
+
 def exec_for(ex, node, env):
   ctx = ex.ctx
   if node.orelse:
@@ -231,6 +248,7 @@ def exec_for(ex, node, env):
   model = iteration_model(ex, it, node)
   modified = set(spec.modifies) if spec.modifies is not None else (
       assigned_names(node.body))
+  modified |= set(spec.extra_modifies)
   modified |= assigned_names([ast.Assign(targets=[node.target], value=None)])
   line = node.lineno
 
@@ -248,6 +266,7 @@ def exec_for(ex, node, env):
   d = ctx.choice(2)
   havoc(ex, env, modified)
   if d == 0:
+    ctx.epoch += 1
     k = z3.Int(ctx.sym('k'))
     ctx.assume(z3.And(k >= 0, k < model.n))
     vis = None
@@ -261,6 +280,7 @@ def exec_for(ex, node, env):
     elem = model.elem(ctx, k)
     if vis is not None and model.distinct:
       ctx.assume(z3.Not(z3.IsMember(model.to_term(elem), vis)))
+    head_names = set(visible_vars(env))
     ex.assign_target(node.target, elem, env, node)
     before = state_marks(ex, env)
     try:
@@ -270,6 +290,7 @@ def exec_for(ex, node, env):
     except BreakSig:
       return
     check_frame_of_loop(ex, env, before, modified, node)
+    check_no_frozen_alias(ex, env, node, head_names)
     vis1 = z3.SetAdd(vis, model.to_term(elem)) if vis is not None else None
     ctx.cur_line = line
     check_invs(ex, spec, env, ghost_at(k + 1, vis1), 'loop-preserve')
@@ -293,6 +314,7 @@ def exec_while(ex, node, env):
     ex.unsupported(node, 'while loop without invariant in the sidecar')
   modified = set(spec.modifies) if spec.modifies is not None else (
       assigned_names(node.body))
+  modified |= set(spec.extra_modifies)
   line = node.lineno
   ctx.cur_line = line
   check_invs(ex, spec, env, dict(spec.ghost), 'loop-init')
@@ -300,6 +322,7 @@ def exec_while(ex, node, env):
   havoc(ex, env, modified)
   assume_invs(ex, spec, env, dict(spec.ghost))
   if d == 0:
+    ctx.epoch += 1
     v0 = None
     if spec.variant is not None:
       v0 = spec.variant(inv_ns(ex, env, dict(spec.ghost)))
